@@ -191,7 +191,21 @@ func ValidateParameter(ctx context.Context, input *RequestValidationInput, param
 			case openapi3.ParameterInQuery:
 				q := req.URL.Query()
 				explode := parameter.Explode != nil && *parameter.Explode
+				sep := ""
+				if sm, err := parameter.SerializationMethod(); err == nil {
+					// the default is written the way the parameter is serialized: effective explode, style's delimiter
+					explode = sm.Explode
+					switch sm.Style {
+					case openapi3.SerializationSpaceDelimited:
+						sep = " "
+					case openapi3.SerializationPipeDelimited:
+						sep = "|"
+					}
+				}
 				populateDefaultQueryParameters(q, parameter.Name, value, explode)
+				if values, ok := value.([]any); ok && !explode && sep != "" {
+					q.Set(parameter.Name, joinValues(values, sep))
+				}
 				req.URL.RawQuery = q.Encode()
 			case openapi3.ParameterInHeader:
 				req.Header.Add(parameter.Name, fmt.Sprint(value))
